@@ -126,4 +126,3 @@ func solveAll(obls []*Obligation, dir string, timeout time.Duration, all bool) [
 	wg.Wait()
 	return results
 }
-
